@@ -193,6 +193,10 @@ def check_case(case) -> Result:
         res.skipped = "time grid not strictly increasing (interpolator undefined)"
         return res
     rf = np.asarray(lib("recovery_factor", r.res.recovery_factor), float)
+    # the optional `time` argument ("times to calculate recovery factor at") given the simulated times: same result
+    rf_t = np.asarray(lib("recovery_factor(time)", r.res.recovery_factor, time), float)
+    if rf_t.shape != rf.shape or not np.array_equal(rf_t, rf):
+        res.bad("C17/interpolator-reproduces-recovery", "recovery_factor(time=<the simulated times>) differs from recovery_factor()")
     f = lib("recovery_factor_interpolator", r.res.recovery_factor_interpolator)
     at = np.asarray(f(time), float)
     res.check("C17/interpolator-reproduces-recovery", float(np.max(np.abs(at - rf))), 1e-13 * max(float(np.max(np.abs(rf))), 1e-300) + 1e-300, "interpolator at the simulated times vs recovery;")
